@@ -235,6 +235,11 @@ where
 
         loop {
 
+            #[cfg(clarabel_verif)]
+            if let Some(ms) = crate::verif::script("sleep", iter) {
+                std::thread::sleep(std::time::Duration::from_micros((ms * 1000.0) as u64));
+            }
+
             //update the residuals
             //--------------
             self.residuals.update(&self.variables, &self.data);
@@ -275,6 +280,10 @@ where
             timeit!{timers => "scale cones"; {
                 is_scaling_success = self.variables.scale_cones(&mut self.cones,μ,scaling);
             }}
+            #[cfg(clarabel_verif)]
+            let is_scaling_success = crate::verif::fault_bool("scale", iter, is_scaling_success);
+            #[cfg(clarabel_verif)]
+            crate::verif::emit_simple("Scale", &[iter as i64, is_scaling_success as i64, (scaling == ScalingStrategy::Dual) as i64], &[]);
             // check whether variables are interior points
             match self.strategy_checkpoint_is_scaling_success(is_scaling_success,scaling){
                 StrategyCheckpoint::Fail => {break}
@@ -295,6 +304,11 @@ where
             timeit!{timers => "kkt update"; {
                 is_kkt_solve_success = self.kktsystem.update(&self.data, &self.cones, &self.settings);
             }} // end "kkt update" timer
+            #[cfg(clarabel_verif)]
+            {
+                is_kkt_solve_success = crate::verif::fault_bool("kkt", iter, is_kkt_solve_success);
+                crate::verif::emit_simple("KKTUpdate", &[iter as i64, is_kkt_solve_success as i64], &[]);
+            }
 
             // calculate the affine step
             // --------------
@@ -313,6 +327,11 @@ where
                     &self.settings,
                 );
             }}  //end "kkt solve affine" timer
+            #[cfg(clarabel_verif)]
+            {
+                is_kkt_solve_success = crate::verif::fault_bool("affine", iter, is_kkt_solve_success);
+                crate::verif::emit_simple("Affine", &[iter as i64, is_kkt_solve_success as i64], &[]);
+            }
 
             // combined step only on affine step success
             if is_kkt_solve_success {
@@ -325,6 +344,8 @@ where
                 // make a reduced Mehrotra correction in the first iteration
                 // to accommodate badly centred starting points
                 let m = if iter > 1 {T::one()} else {α};
+                #[cfg(clarabel_verif)]
+                crate::verif::emit_simple("Centering", &[iter as i64], &[crate::verif::f64_of(α), crate::verif::f64_of(σ), crate::verif::f64_of(m), crate::verif::f64_of(μ)]);
 
                 // calculate the combined step and length
                 // --------------
@@ -350,6 +371,11 @@ where
                         &self.settings,
                     );
                 }} //end "kkt solve"
+                #[cfg(clarabel_verif)]
+                {
+                    is_kkt_solve_success = crate::verif::fault_bool("combined", iter, is_kkt_solve_success);
+                    crate::verif::emit_simple("Combined", &[iter as i64, is_kkt_solve_success as i64], &[]);
+                }
             }
 
             // check for numerical failure and update strategy
@@ -363,6 +389,13 @@ where
             // compute final step length and update the current iterate
             // --------------
             α = self.get_step_length(StepDirection::Combined,scaling);
+            #[cfg(clarabel_verif)]
+            {
+                if let Some(v) = crate::verif::script("alpha", iter) {
+                    α = T::min(α, T::from_f64(v).unwrap());
+                }
+                crate::verif::emit_simple("StepLength", &[iter as i64, (scaling == ScalingStrategy::Dual) as i64], &[crate::verif::f64_of(α)]);
+            }
 
             // check for undersized step and update strategy
             match self.strategy_checkpoint_small_step(α, scaling) {
@@ -375,6 +408,8 @@ where
             self.info.save_prev_iterate(&self.variables,&mut self.prev_vars);
 
             self.variables.add_step(&self.step_lhs, α);
+            #[cfg(clarabel_verif)]
+            crate::verif::emit_simple("AddStep", &[iter as i64], &[crate::verif::f64_of(α)]);
 
         } //end loop
         // ----------
@@ -383,6 +418,9 @@ where
         }} //end "IP iteration" timer
 
         }} // end "solve" timer
+
+        #[cfg(clarabel_verif)]
+        crate::verif::emit_simple("LoopExit", &[iter as i64, (α == T::zero()) as i64], &[crate::verif::f64_of(α)]);
 
         // Check we if actually took a final step.  If not, we need
         // to recapture the scalars and print one last line
@@ -550,6 +588,8 @@ mod internal {
                     output = StrategyCheckpoint::Fail;
                 }
             }
+            #[cfg(clarabel_verif)]
+            crate::verif::emit_simple("Ckpt", &[0, match output { StrategyCheckpoint::NoUpdate => 0, StrategyCheckpoint::Update(_) => 1, StrategyCheckpoint::Fail => 2 }], &[]);
             output
         }
 
@@ -571,6 +611,8 @@ mod internal {
                 self.info.set_status(SolverStatus::NumericalError);
                 output = StrategyCheckpoint::Fail;
             }
+            #[cfg(clarabel_verif)]
+            crate::verif::emit_simple("Ckpt", &[1, match output { StrategyCheckpoint::NoUpdate => 0, StrategyCheckpoint::Update(_) => 1, StrategyCheckpoint::Fail => 2 }], &[]);
             output
         }
 
@@ -593,6 +635,8 @@ mod internal {
                 output = StrategyCheckpoint::NoUpdate;
             }
 
+            #[cfg(clarabel_verif)]
+            crate::verif::emit_simple("Ckpt", &[2, match output { StrategyCheckpoint::NoUpdate => 0, StrategyCheckpoint::Update(_) => 1, StrategyCheckpoint::Fail => 2 }], &[]);
             output
         }
 
